@@ -1,5 +1,6 @@
 SPECIFICATION Spec
 CONSTANTS
+  Full = TRUE
   BugH13 = FALSE
 INVARIANTS PropertyHolds
 CHECK_DEADLOCK FALSE
